@@ -23,6 +23,7 @@ parser is additionally exercised on `(a=<ldap_escape v>)` by lane `escape` (R li
 -/
 import Ldap3V.Lemmas.Escape
 import Ldap3V.Lemmas.EscapeFilter
+import Ldap3V.Lemmas.EscapeFilterGuard
 import Ldap3V.Lemmas.EscapeUtf8
 import Ldap3V.Lemmas.EscapeDn
 import Ldap3V.Lemmas.EscapeDnStruct
@@ -114,13 +115,14 @@ assertion value `v` — `.cons 2 3 [.prim 0 4 a, .prim 0 4 v]` on the wire. -/
 theorem C09_filter_inert (a v : Bytes) (ha : attrDescOk a = true) :
     (Filter.parse ([0x28] ++ a ++ [0x3D] ++ ldapEscape v ++ [0x29])).map Tag.toTlv =
       some (Spec.Filter.toTlv (.eq a v)) :=
-  parse_of_G (valItem_G (.eq a) ((attrDescOk_iff a).mp ha) (rvalF_ldapEscape v))
+  gparse_of_G (valItem_G (.eq a) ((attrDescOk_iff a).mp ha) (rvalF_ldapEscape v)) (fdepth_valItem_le (.eq a) v)
 
 /-- … the tag the model parser returns, constructor for constructor (what `eq` of filter.rs builds) -/
 theorem C09_filter_inert_tag (a v : Bytes) (ha : attrDescOk a = true) :
     Filter.parse ([0x28] ++ a ++ [0x3D] ++ ldapEscape v ++ [0x29]) =
       some (.sequence 2 3 [.octetString 0 4 a, .octetString 0 4 v]) :=
-  parse_eq_exact ((attrDescOk_iff a).mp ha) (rvalF_ldapEscape v)
+  gparse_exact (valItem_G (.eq a) ((attrDescOk_iff a).mp ha) (rvalF_ldapEscape v)) (fdepth_valItem_le (.eq a) v)
+    (parse_eq_exact ((attrDescOk_iff a).mp ha) (rvalF_ldapEscape v))
 
 /-- … and the strict RFC 4511 decoder reads that tag as `equalityMatch (a, v)`. -/
 theorem C09_filter_inert_decoded (a v : Bytes) (ha : attrDescOk a = true) :
@@ -137,8 +139,9 @@ theorem C09_filter_inert_ord (a v : Bytes) (ha : attrDescOk a = true) :
     (Filter.parse ([0x28] ++ a ++ [0x7E, 0x3D] ++ ldapEscape v ++ [0x29])).map Tag.toTlv =
       some (Spec.Filter.toTlv (.approx a v)) := by
   have h := (attrDescOk_iff a).mp ha
-  exact ⟨parse_of_G (valItem_G (.ge a) h (rvalF_ldapEscape v)), parse_of_G (valItem_G (.le a) h (rvalF_ldapEscape v)),
-    parse_of_G (valItem_G (.approx a) h (rvalF_ldapEscape v))⟩
+  exact ⟨gparse_of_G (valItem_G (.ge a) h (rvalF_ldapEscape v)) (fdepth_valItem_le (.ge a) v),
+    gparse_of_G (valItem_G (.le a) h (rvalF_ldapEscape v)) (fdepth_valItem_le (.le a) v),
+    gparse_of_G (valItem_G (.approx a) h (rvalF_ldapEscape v)) (fdepth_valItem_le (.approx a) v)⟩
 
 /-- … with the tags the model parser returns (`non_eq` of filter.rs: ids 5, 6, 8) -/
 theorem C09_filter_inert_ord_tag (a v : Bytes) (ha : attrDescOk a = true) :
@@ -149,8 +152,12 @@ theorem C09_filter_inert_ord_tag (a v : Bytes) (ha : attrDescOk a = true) :
     Filter.parse ([0x28] ++ a ++ [0x7E, 0x3D] ++ ldapEscape v ++ [0x29]) =
       some (.sequence 2 8 [.octetString 0 4 a, .octetString 0 4 v]) := by
   have h := (attrDescOk_iff a).mp ha
-  exact ⟨parse_ge_exact h (rvalF_ldapEscape v), parse_le_exact h (rvalF_ldapEscape v),
-    parse_approx_exact h (rvalF_ldapEscape v)⟩
+  exact ⟨gparse_exact (valItem_G (.ge a) h (rvalF_ldapEscape v)) (fdepth_valItem_le (.ge a) v)
+      (parse_ge_exact h (rvalF_ldapEscape v)),
+    gparse_exact (valItem_G (.le a) h (rvalF_ldapEscape v)) (fdepth_valItem_le (.le a) v)
+      (parse_le_exact h (rvalF_ldapEscape v)),
+    gparse_exact (valItem_G (.approx a) h (rvalF_ldapEscape v)) (fdepth_valItem_le (.approx a) v)
+      (parse_approx_exact h (rvalF_ldapEscape v))⟩
 
 /-- Substring filters, any number of pieces: `(a=[esc ini]*{esc any_k *}[esc fin])`
 (`substrText`) is the substring filter with exactly these pieces, in this order.  The pieces must be
@@ -161,7 +168,7 @@ theorem C09_filter_substr (a : Bytes) (ini fin : Option Bytes) (any : List Bytes
     (hi : ini ≠ some []) (hy : ∀ m ∈ any, m ≠ []) (hf : fin ≠ some [])
     (hne : ini.isSome = true ∨ any ≠ [] ∨ fin.isSome = true) :
     (Filter.parse (substrText a ini any fin)).map Tag.toTlv = some (Spec.Filter.toTlv (.substr a ini any fin)) :=
-  parse_of_G (substr_G ((attrDescOk_iff a).mp ha) ini fin any hi hy hf hne)
+  gparse_of_G (substr_G ((attrDescOk_iff a).mp ha) ini fin any hi hy hf hne) (by simp [Filter.fdepth, Filter.maxNesting])
 
 /-- the instance `(a=<esc i>*<esc m>*<esc f>)`: initial `i`, any `[m]`, final `f` -/
 theorem C09_filter_substr3 (a i m f : Bytes) (ha : attrDescOk a = true) (hi : i ≠ []) (hm : m ≠ []) (hf : f ≠ []) :
@@ -178,7 +185,7 @@ theorem C09_filter_substr_empty_piece (a : Bytes) (ini fin : Option Bytes) (any 
     Filter.parse (substrText a ini (pre ++ [] :: post) fin) = none ∧
     substrText a (some []) any fin = substrText a none any fin ∧
     substrText a ini any (some []) = substrText a ini any none :=
-  ⟨substr_empty_any_rejected a ini fin pre post, by simp [substrText, ldapEscapeOpt, ldapEscape_nil],
+  ⟨Filter.parse_none_of_core (substr_empty_any_rejected a ini fin pre post), by simp [substrText, ldapEscapeOpt, ldapEscape_nil],
     by simp [substrText, ldapEscapeOpt, ldapEscape_nil]⟩
 
 /-- with no piece at all the text is `(a=*)`: presence -/
@@ -190,13 +197,13 @@ theorem C09_filter_present (a : Bytes) (ha : attrDescOk a = true) :
   refine ⟨e, ?_⟩
   have := Filter.G_of_item (Spec.Filter.GItem.present ((attrDescOk_iff a).mp ha))
   rw [e]
-  exact parse_of_G (by simpa using this)
+  exact gparse_of_G (by simpa using this) (by simp [Filter.fdepth, Filter.maxNesting])
 
 /-- Extensible match `(a:=<ldap_escape v>)`: type `a`, no matching rule, value `v`, dnAttributes FALSE. -/
 theorem C09_filter_ext (a v : Bytes) (ha : attrDescOk a = true) :
     (Filter.parse ([0x28] ++ a ++ [0x3A, 0x3D] ++ ldapEscape v ++ [0x29])).map Tag.toTlv =
       some (Spec.Filter.toTlv (.ext none (some a) v false)) :=
-  parse_of_G (valItem_G (.ext a) ((attrDescOk_iff a).mp ha) (rvalF_ldapEscape v))
+  gparse_of_G (valItem_G (.ext a) ((attrDescOk_iff a).mp ha) (rvalF_ldapEscape v)) (fdepth_valItem_le (.ext a) v)
 
 /-- The general extensible match with a type: `(a[:dn][:rule]:=<ldap_escape v>)` (`extText`; `kw` is
 the spelling of the keyword, `dn` in any case).  A rule must be an oid (`oidOk`: the model's
@@ -207,26 +214,30 @@ theorem C09_filter_ext_rule (a kw v : Bytes) (rule : Option Bytes) (dn : Bool) (
     (hn : dn = false → ∀ r, rule = some r → Spec.Filter.isDnKw .lib r = false) :
     (Filter.parse (extText a dn kw rule (ldapEscape v))).map Tag.toTlv =
       some (Spec.Filter.toTlv (.ext rule (some a) v dn)) :=
-  parse_of_G (ext_G ((attrDescOk_iff a).mp ha) hk (fun r h => (oidOk_iff r).mp (ho r h)) hn (rvalF_ldapEscape v))
+  gparse_of_G (ext_G ((attrDescOk_iff a).mp ha) hk (fun r h => (oidOk_iff r).mp (ho r h)) hn (rvalF_ldapEscape v))
+    (by simp [Filter.fdepth, Filter.maxNesting])
 
 /-- Structure: put `(a op <ldap_escape v>)` (`op` one of `=` `>=` `<=` `~=` `:=`) anywhere inside a
 boolean structure — any nesting of `(&…)` `(|…)` `(!…)`, any sibling filters of the language before
 and after it at each level (`Ctx`, Spec/FilterCtx.lean).  The result is that structure with exactly
 the node (`a`, `v`) in the hole: the same siblings, the same nesting, nothing added, closed or merged,
-whatever `v` is. -/
+whatever `v` is.  The whole structure must be one `parse_filter` accepts at all: at most 128 levels of
+nesting (`hd`; the value has no influence on that number: `Filter.fdepth (it.tree v) = 1`). -/
 theorem C09_filter_nested (c : Spec.Filter.Ctx) (hc : c.ok .lib) (it : Spec.Filter.ValItem)
-    (ha : attrDescOk it.attr = true) (v : Bytes) :
+    (ha : attrDescOk it.attr = true) (v : Bytes)
+    (hd : Filter.fdepth (c.tree (it.tree v)) ≤ Filter.maxNesting) :
     (Filter.parse (c.fill (it.text (ldapEscape v)))).map Tag.toTlv = some (Spec.Filter.toTlv (c.tree (it.tree v))) :=
-  parse_of_G (ctx_G c hc (valItem_G it ((attrDescOk_iff _).mp ha) (rvalF_ldapEscape v)))
+  gparse_of_G (ctx_G c hc (valItem_G it ((attrDescOk_iff _).mp ha) (rvalF_ldapEscape v))) hd
 
 /-- the same for a substring item in the hole -/
 theorem C09_filter_substr_nested (c : Spec.Filter.Ctx) (hc : c.ok .lib) (a : Bytes) (ini fin : Option Bytes)
     (any : List Bytes) (ha : attrDescOk a = true)
     (hi : ini ≠ some []) (hy : ∀ m ∈ any, m ≠ []) (hf : fin ≠ some [])
-    (hne : ini.isSome = true ∨ any ≠ [] ∨ fin.isSome = true) :
+    (hne : ini.isSome = true ∨ any ≠ [] ∨ fin.isSome = true)
+    (hd : Filter.fdepth (c.tree (.substr a ini any fin)) ≤ Filter.maxNesting) :
     (Filter.parse (c.fill (substrText a ini any fin))).map Tag.toTlv =
       some (Spec.Filter.toTlv (c.tree (.substr a ini any fin))) :=
-  parse_of_G (ctx_G c hc (substr_G ((attrDescOk_iff a).mp ha) ini fin any hi hy hf hne))
+  gparse_of_G (ctx_G c hc (substr_G ((attrDescOk_iff a).mp ha) ini fin any hi hy hf hne)) hd
 
 /-- `(objectClass=person)` -/
 def C09_objectClassPerson : Bytes :=
@@ -252,7 +263,8 @@ theorem C09_filter_and_person (a v : Bytes) (ha : attrDescOk a = true) :
     some (Spec.Filter.toTlv (.and [.eq [0x6F, 0x62, 0x6A, 0x65, 0x63, 0x74, 0x43, 0x6C, 0x61, 0x73, 0x73]
       [0x70, 0x65, 0x72, 0x73, 0x6F, 0x6E], .eq a v])) := by
   have := C09_filter_nested (.and [C09_personSib] .hole []) ⟨C09_person_ok, trivial, by simp [Spec.Filter.Sibs.ok]⟩
-    (.eq a) ha v
+    (.eq a) ha v (by simp [Spec.Filter.Ctx.tree, Spec.Filter.Sibs.trees, Spec.Filter.ValItem.tree, C09_personSib,
+      Filter.fdepth, Filter.fdepthList, Filter.maxNesting])
   simpa [Spec.Filter.Ctx.fill, Spec.Filter.Ctx.tree, Spec.Filter.Sibs.text, Spec.Filter.Sibs.trees,
     Spec.Filter.ValItem.text, Spec.Filter.ValItem.tree, Spec.Filter.ValItem.attr, Spec.Filter.ValItem.op,
     C09_personSib] using this
@@ -261,9 +273,9 @@ theorem C09_filter_and_person (a v : Bytes) (ha : attrDescOk a = true) :
 that every RFC 4515 rendering of `v` in it gives a string denoting `f`, gives a string the parser
 compiles to `f` when the text is `ldap_escape(v)`. -/
 theorem C09_filter_inert_ctx (f : Spec.Filter) (C : Bytes → Bytes) (v : Bytes)
-    (h : ∀ r, Spec.Filter.RVal v r → Spec.Filter.GLib f (C r)) :
+    (h : ∀ r, Spec.Filter.RVal v r → Spec.Filter.GLib f (C r)) (hd : Filter.fdepth f ≤ Filter.maxNesting) :
     (Filter.parse (C (ldapEscape v))).map Tag.toTlv = some (Spec.Filter.toTlv f) :=
-  parse_of_GLib (h _ (rvalF_ldapEscape v))
+  gparse_of_GLib (h _ (rvalF_ldapEscape v)) hd
 
 /-- For a Rust `str` `v` and an attribute description of RFC 4512 as written (a numeric oid has at
 least two arcs), the text `(a op <ldap_escape v>)` is itself valid UTF-8 (a `&str` that can be handed to
